@@ -33,12 +33,15 @@ pub fn run(ctx: &mut Ctx) {
         let a = prep.flat.max_actions() as f64;
         let nodes = prep.flat.nodes.len();
         let scale = prep.flat.max_abs_payoff().max(1e-300);
-        let budgets: &[u64] = if nodes > 600 { &[1, 3, 10, 30, 100] } else if nodes > 150 || quick { &[1, 3, 10, 30, 100, 300, 1000] } else { &[1, 3, 10, 30, 100, 300, 1000, 3000] };
+        // long runs on small games: at small T the envelope is so wide that a solver whose regret
+        // stops improving (frozen infosets) stays inside it; at T = 1e4..1e5 it does not
+        let long = idx % 5 == 4 && nodes <= 60;
+        let budgets: &[u64] = if long { &[10_000, 30_000, 100_000] } else if nodes > 600 { &[1, 3, 10, 30, 100] } else if nodes > 150 || quick { &[1, 3, 10, 30, 100, 300, 1000] } else { &[1, 3, 10, 30, 100, 300, 1000, 3000] };
         let mut ratios: Vec<(u64, f64)> = Vec::new();
         for _ in 0..4 {
             let spec = *rng.pick(&ParamSpec::PRESETS);
             let iters = *rng.pick(budgets);
-            let threads = *rng.pick(&[1usize, 1, 1, 4, 16]);
+            let threads = if long { 1 } else { *rng.pick(&[1usize, 1, 1, 4, 16]) };
             let cfg = Cfg { method: SolveMethod::Full, iters, max_reg: 0.0, threads, params: spec };
             ctx.mark(idx, &cfg.describe());
             let detail = || json!({"game": tree.to_json(), "cfg": cfg.describe(), "desc": desc, "D": d, "N": nn, "A": a});
@@ -82,7 +85,7 @@ pub fn run(ctx: &mut Ctx) {
         }
     });
     ctx.finish(crate::report::extra(
-        "cases = solve(Full, T, 0, k, preset) calls: adversarial G2 shapes (centipede chains to depth 300, degenerate chains, one infoset over 64 nodes, 1e-6/1e-9 chance outcomes, Kuhn, Leduc-like, wide matrices) and G1 trees x presets {vanilla,lcfr,cfr_plus,dcfr,dcfr_prune} x T in {1,3,10,30,100,300,1000,3000} x k in {1,4,16}. D (payoff range), N (multi-action infosets of both players) and A (max actions) are computed from the harness tree. Required: vanilla per-player bound <= 2*D*N*sqrt(A)/sqrt(T); for every preset O1 true regret <= 6*D*N*(sqrt(A)+1/sqrt(T))/sqrt(T). The unbounded clause 'regret tends to zero' is restated as these finite-T envelopes (a finite run cannot decide an eventuality). distinct = hash(tree, configuration); non-trivial = game has a decision infoset and a non-zero payoff range.",
+        "cases = solve(Full, T, 0, k, preset) calls: adversarial G2 shapes (centipede chains to depth 300, degenerate chains, one infoset over 64 nodes, 1e-6/1e-9 chance outcomes, Kuhn, Leduc-like, wide matrices) and G1 trees x presets {vanilla,lcfr,cfr_plus,dcfr,dcfr_prune} x T in {1,3,10,30,100,300,1000,3000} x k in {1,4,16}; every fifth case on a game of <= 60 nodes runs T in {1e4,3e4,1e5} with one thread, where the envelope is tight enough to expose regret that stops improving. D (payoff range), N (multi-action infosets of both players) and A (max actions) are computed from the harness tree. Required: vanilla per-player bound <= 2*D*N*sqrt(A)/sqrt(T); for every preset O1 true regret <= 6*D*N*(sqrt(A)+1/sqrt(T))/sqrt(T). The unbounded clause 'regret tends to zero' is restated as these finite-T envelopes (a finite run cannot decide an eventuality). distinct = hash(tree, configuration); non-trivial = game has a decision infoset and a non-zero payoff range.",
         &["O1 as in C01", "deterministic method, so no statistics are involved"],
     ));
 }
